@@ -93,39 +93,79 @@ Fixpoint idx1 (n : node) : option Z :=
 
 (* ------------------------------------------------------------------ *)
 (* ast.Walk.  [stop k] is the visitor answering nil from Enter on nodes of
-   kind k.  A typed-nil slot reaches the visitor as a nil node: Enter and
-   (deferred) Exit are both called with it. *)
+   kind k.  Walk tests three pointer fields for nil before descending
+   (BranchStatement.Label, FunctionLiteral.Name, TryStatement.Catch: the fields
+   the parser leaves nil); a nil pointer in any other pointer slot
+   (DotExpression.Identifier, LabelledStatement.Label, CatchStatement.Parameter,
+   FunctionStatement.Function, a parameter, a case clause) is still passed on as
+   a typed-nil interface: Enter and (deferred) Exit are both called with it. *)
 Inductive event := EEnter (n : node) | EExit (n : node) | ENilEnter | ENilExit.
+
+Definition nil_checked (k : kind) (i : nat) : bool :=
+  match k, i with
+  | KBranch, O | KFunction, O | KTry, S O => true
+  | _, _ => false
+  end.
 
 Fixpoint walk (stop : kind -> bool) (n : node) : list event :=
   match n with
   | T k f c =>
       if stop k then [EEnter n]
       else EEnter n ::
-           (fix go (l : list (child node)) : list event :=
+           (fix go (l : list (child node)) (i : nat) : list event :=
               match l with
               | [] => []
-              | CNil :: l' => go l'
-              | CTypedNil :: l' => ENilEnter :: ENilExit :: go l'
-              | CNode m :: l' => walk stop m ++ go l'
-              end) c ++ [EExit n]
+              | CNil :: l' => go l' (S i)
+              | CTypedNil :: l' =>
+                  if nil_checked k i then go l' (S i) else ENilEnter :: ENilExit :: go l' (S i)
+              | CNode m :: l' => walk stop m ++ go l' (S i)
+              end) c O ++ [EExit n]
   end.
 
-Fixpoint walk_kids (stop : kind -> bool) (l : list (child node)) : list event :=
+Fixpoint walk_kids (stop : kind -> bool) (k : kind) (i : nat) (l : list (child node)) : list event :=
   match l with
   | [] => []
-  | CNil :: l' => walk_kids stop l'
-  | CTypedNil :: l' => ENilEnter :: ENilExit :: walk_kids stop l'
-  | CNode m :: l' => walk stop m ++ walk_kids stop l'
+  | CNil :: l' => walk_kids stop k (S i) l'
+  | CTypedNil :: l' =>
+      if nil_checked k i then walk_kids stop k (S i) l'
+      else ENilEnter :: ENilExit :: walk_kids stop k (S i) l'
+  | CNode m :: l' => walk stop m ++ walk_kids stop k (S i) l'
   end.
 
 Lemma walk_eq : forall stop k f c,
   walk stop (T k f c) =
   if stop k then [EEnter (T k f c)]
-  else EEnter (T k f c) :: walk_kids stop c ++ [EExit (T k f c)].
+  else EEnter (T k f c) :: walk_kids stop k O c ++ [EExit (T k f c)].
 Proof.
   intros. cbn [walk]. destruct (stop k); [reflexivity|]. f_equal. f_equal.
-  induction c as [|[| |m] c IH]; cbn [walk_kids]; try rewrite <- IH; reflexivity.
+  generalize O. induction c as [|[| |m] c IH]; intros i; cbn [walk_kids]; try rewrite <- IH; reflexivity.
+Qed.
+
+(* nil pointers in slots that Walk does not test *)
+Fixpoint stray_typed_nil (n : node) : Z :=
+  match n with
+  | T k f c =>
+      (fix go (l : list (child node)) (i : nat) : Z :=
+         match l with
+         | [] => 0
+         | CNode m :: l' => stray_typed_nil m + go l' (S i)
+         | CTypedNil :: l' => (if nil_checked k i then 0 else 1) + go l' (S i)
+         | CNil :: l' => go l' (S i)
+         end) c O
+  end.
+
+Fixpoint stray_kids (k : kind) (i : nat) (l : list (child node)) : Z :=
+  match l with
+  | [] => 0
+  | CNode m :: l' => stray_typed_nil m + stray_kids k (S i) l'
+  | CTypedNil :: l' => (if nil_checked k i then 0 else 1) + stray_kids k (S i) l'
+  | CNil :: l' => stray_kids k (S i) l'
+  end.
+
+Lemma stray_eq : forall k f c, stray_typed_nil (T k f c) = stray_kids k O c.
+Proof.
+  intros. cbn [stray_typed_nil]. generalize O.
+  induction c as [|[| |m] c IH]; intros i; cbn [stray_kids]; try rewrite <- IH; reflexivity.
 Qed.
 
 (* the same traversal with nodes named by their pre-order number, as the
@@ -147,13 +187,15 @@ Fixpoint wcodes (stop : kind -> bool) (n : node) (i : Z) : list Z :=
   | T k f c =>
       if stop k then [i]
       else i ::
-           (fix go (l : list (child node)) (j : Z) : list Z :=
+           (fix go (l : list (child node)) (j : Z) (slot : nat) : list Z :=
               match l with
               | [] => []
-              | CNil :: l' => go l' j
-              | CTypedNil :: l' => 1000000 :: 1000001 :: go l' j
-              | CNode m :: l' => wcodes stop m j ++ go l' (j + size m)
-              end) c (i + 1) ++ [- (i + 1)]
+              | CNil :: l' => go l' j (S slot)
+              | CTypedNil :: l' =>
+                  if nil_checked k slot then go l' j (S slot)
+                  else 1000000 :: 1000001 :: go l' j (S slot)
+              | CNode m :: l' => wcodes stop m j ++ go l' (j + size m) (S slot)
+              end) c (i + 1) O ++ [- (i + 1)]
   end.
 
 (* ------------------------------------------------------------------ *)
